@@ -377,6 +377,110 @@ def r_memo_key(ck: Checker) -> None:
     ck.need(n >= 3, f"memo guards found ({n})")
 
 
+def r_loop_leak(ck: Checker) -> None:
+    """a name that is bound only inside a loop and read after it carries the value of ONE iteration: that is what a
+    search loop that leaves through `break` wants, and a slip everywhere else (a statement that slid out of the loop body
+    sees the last element only)"""
+    n = 0
+    for func in ck.prg.funcs.values():
+        if isinstance(func.node, ast.Lambda):
+            continue
+        own: list[ast.AST] = []
+        todo: list[ast.AST] = list(func.node.body)  # type: ignore[attr-defined]
+        while todo:
+            cur = todo.pop()
+            own.append(cur)
+            if isinstance(cur, (ast.FunctionDef, ast.AsyncFunctionDef, ast.Lambda, ast.ClassDef)):
+                continue
+            todo.extend(ast.iter_child_nodes(cur))
+        loops = [x for x in own if isinstance(x, (ast.For, ast.While))]
+        params = set(func.params())
+        own_ids = {id(y) for y in own}
+        inside_of = {id(lp): {id(x) for x in ast.walk(lp)} for lp in loops}
+        names = {x.id for x in own if isinstance(x, ast.Name) and isinstance(x.ctx, ast.Store)} - params
+        for name in sorted(names):
+            stores = [x for x in own if isinstance(x, ast.Name) and x.id == name and isinstance(x.ctx, ast.Store)]
+            holders = [lp for lp in loops if any(id(x) in inside_of[id(lp)] for x in stores)]
+            if not holders or any(not any(id(x) in inside_of[id(lp)] for lp in loops) for x in stores):
+                continue  # also bound outside of loops
+            outer = [lp for lp in holders if not any(id(lp) in inside_of[id(o)] and o is not lp for o in holders)]
+            for ld in [x for x in own if isinstance(x, ast.Name) and x.id == name and isinstance(x.ctx, ast.Load)]:
+                if any(id(ld) in inside_of[id(lp)] for lp in holders):
+                    continue
+                before = [lp for lp in outer if getattr(lp, "end_lineno", 0) < getattr(ld, "lineno", 0)]
+                if not before:
+                    continue
+                lp = max(before, key=lambda q: getattr(q, "end_lineno", 0))
+                n += 1
+                searches = any(isinstance(b, ast.Break) for b in ast.walk(lp))
+                ck.add(f"{tag(func.module.name)} {func.name}: `{name}` is bound inside a loop and read after it - the loop is a search that leaves through `break`", searches, func, ld,
+                       f"bound only inside loops, read at line {ld.lineno} after the loop at line {lp.lineno}; that loop has a `break`: {searches}",
+                       "without a `break` the value is the one of the LAST iteration: `no_bound_needed.update(bound)` after the loop over the head elements reports the variables of the last element only")
+    ck.need(n >= 5, f"loop-bound names read after their loop found ({n})")
+
+
+def r_pred_identity(ck: Checker) -> None:
+    """a predicate is a NAME AND AN ARITY (`p/2` and `p/3` are unrelated): wherever two predicate names are compared, the
+    arities are compared in the same condition (or whole Predicate objects are); and no set or list of bare predicate
+    names stands in for a set of predicates"""
+    from ..mypy_bridge import build
+
+    ti = build()
+
+    def predicate_like(func, expr: ast.expr) -> bool:  # type: ignore[no-untyped-def]
+        typ = (ti.type_at(func.module.name, expr) or "")
+        txt = unparse(expr)
+        return typ.endswith("Predicate") or "symbol" in txt.lower() or txt.endswith(".pred") or txt in ("pred", "hpred", "orig_pred", "new_pred")
+
+    n = 0
+    for func in ck.prg.funcs.values():
+        if isinstance(func.node, ast.Lambda) or func.module.name in ("ngo.utils.logger",):
+            continue
+        parents: dict[int, ast.AST] = {}
+        for a in ast.walk(func.node):
+            for c in ast.iter_child_nodes(a):
+                parents[id(c)] = a
+        for node in ast.walk(func.node):
+            if isinstance(node, ast.Compare) and len(node.ops) == 1 and isinstance(node.ops[0], (ast.Eq, ast.NotEq)):
+                l, r = node.left, node.comparators[0]
+                if not (isinstance(l, ast.Attribute) and l.attr == "name" and isinstance(r, ast.Attribute) and r.attr == "name"):
+                    continue
+                n += 1
+                if not (predicate_like(func, l.value) or predicate_like(func, r.value)):
+                    ck.add(f"{tag(func.module.name)} {func.name}: `{short(unparse(node), 50)}` compares names of variables", True, func, node, "not a predicate", "", nontrivial=False)
+                    continue
+                # the arity in the same conjunction
+                up = parents.get(id(node))
+                conj = [unparse(v).replace(" ", "") for v in up.values] if isinstance(up, ast.BoolOp) and isinstance(up.op, ast.And) else []
+                lb, rb = unparse(l.value).replace(" ", ""), unparse(r.value).replace(" ", "")
+                want = {f"len({lb}.arguments)==len({rb}.arguments)", f"len({rb}.arguments)==len({lb}.arguments)", f"{lb}.arity=={rb}.arity", f"{rb}.arity=={lb}.arity",
+                        f"{lb}.arity==len({rb}.arguments)", f"len({rb}.arguments)=={lb}.arity", f"{rb}.arity==len({lb}.arguments)", f"len({lb}.arguments)=={rb}.arity"}
+                ok = bool(want & set(conj))
+                ck.add(f"{tag(func.module.name)} {func.name}: predicate names are compared together with the arities", ok, func, node, f"`{short(unparse(up if conj else node), 110)}`",
+                       "`shift/2` and `shift/3` share a name: matching by name alone takes an unrestricted predicate for the at-most-one one, or emits the domain rules of the wrong predicate")
+            elif isinstance(node, (ast.SetComp, ast.ListComp, ast.GeneratorExp)) and isinstance(node.elt, ast.Attribute) and node.elt.attr == "name":
+                src = node.generators[0].iter
+                typ = (ti.type_at(func.module.name, src) or "")
+                if "Predicate" not in typ:
+                    continue
+                up = parents.get(id(node))
+                if isinstance(up, ast.JoinedStr) or (isinstance(up, ast.Call) and unparse(up.func).split(".")[-1] in ("info", "debug", "warning", "join", "error")):
+                    continue
+                n += 1
+                ck.add(f"{tag(func.module.name)} {func.name}: no collection of bare predicate names stands in for a set of predicates", False, func, node, f"`{short(unparse(node), 80)}` over `{short(typ, 60)}`",
+                       "membership by name drops the arity: an open `edge/3` next to a derived `edge/2` is no longer reported as input")
+            elif (isinstance(node, ast.Call) and isinstance(node.func, ast.Attribute) and node.func.attr in ("add", "append") and len(node.args) == 1
+                  and isinstance(node.args[0], ast.Attribute) and node.args[0].attr == "name"):
+                # the same as a loop: names.add(p.name)
+                typ = (ti.type_at(func.module.name, node.args[0].value) or "")
+                if not typ.endswith("Predicate"):
+                    continue
+                n += 1
+                ck.add(f"{tag(func.module.name)} {func.name}: no collection of bare predicate names stands in for a set of predicates", False, func, node, f"`{short(unparse(node), 80)}` with `{unparse(node.args[0].value)}`: {short(typ, 50)}",
+                       "membership by name drops the arity: an open `edge/3` next to a derived `edge/2` is no longer reported as input")
+    ck.need(n >= 3, f"name comparisons found ({n})")
+
+
 _EXTRA = module_extra()
 
 RULES = [
@@ -384,4 +488,6 @@ RULES = [
     Rule("GEN.index-space", ("C01",), r_index_space, extra=_EXTRA),
     Rule("GEN.loop-state", ("C01",), r_loop_state, extra=_EXTRA),
     Rule("GEN.memo-key", ("C01",), r_memo_key, extra=_EXTRA),
+    Rule("GEN.pred-identity", ("C01",), r_pred_identity, extra=_EXTRA),
+    Rule("GEN.loop-leak", ("C01",), r_loop_leak, extra=_EXTRA),
 ]
